@@ -17,7 +17,7 @@ from typing import Any, Iterable
 
 from kv import awaits, coqio as cq, framework as fw, queue_drv as qd
 
-RULE = ('cases = (worker_limit in {None,1,2}, index toggles on/off, consistency_timeout 0 or >0, explorer action sequence over <=3 objects: feed / '
+RULE = ('cases = (worker_limit in {None,1,2}, index toggles on/off, consistency_timeout 0 or >0, explorer action sequence over <=3 objects (with or without metadata.uid): feed (typed: ADDED/MODIFIED/DELETED/None) / '
         'finish / finish returning a patched resourceVersion / echo of a patch / fail / advance-to-timer / advance-and-feed races / single steps / cancel); exhaustive over the macro '
         'alphabet to a depth + random deeper ones; non-trivial iff (>= 2 objects or an idle Timeout observed) and >= 1 '
         'event processed; distinct by the label trace of the implementation')
@@ -48,6 +48,10 @@ def expand(m: str) -> list[tuple]:
         return [('X', u), ('S',)]
     if k == 'B':
         return [('B',), ('S',)]
+    if k == 'K':   # a DELETED event of object u arrives
+        return [('G', u, 'DELETED'), ('S',)]
+    if k == 'N':   # an ADDED event of object u arrives (e.g. re-created under the same key)
+        return [('G', u, 'ADDED'), ('S',)]
     if k == 'V':   # the processor returns a patched resourceVersion (the worker starts expecting its echo)
         return [('V', u), ('S',)]
     if k == 'E':   # the echo of the oldest outstanding patch arrives
@@ -77,6 +81,10 @@ CORPUS = [
     (None, False, ['F0', 'F0', 'F0', 'F0', 'V0', 'V0', 'E0', 'D0', 'E0', 'D0', 'D0'], 3.0),
     (1, False, ['F0', 'F1', 'F0', 'F0', 'V0', 'D0', 'D0', 'T', 'V1', 'E1', 'D1'], 3.0),
     (None, True, ['F0', 'V0', 'F0', 'F0', 'E0', 'D0', 'D0', 'D0', 'T', 'T'], 3.0),
+    # event types: a DELETED event is being processed (slowly) while the next event of the same key arrives
+    (None, False, ['N0', 'D0', 'K0', 'F0', 'D0', 'D0']),
+    (1, False, ['N0', 'D0', 'K0', 'N0', 'F1', 'D0', 'D0', 'T', 'D1'], 0.0, True),     # uid-less: re-created under the same name
+    (None, False, ['K0', 'N0', 'D0', 'D0', 'T'], 3.0, True),
 ]
 
 
@@ -215,6 +223,11 @@ def run_case(cfgd: dict, actions: list[tuple], epilogue: bool = True) -> dict:
             dec['start'] += 1
         if it[1] in ('Depleted', 'DepletionTimeout', 'Fail'):
             dec[it[1]] += 1
+    for c in drv.calls:
+        dec['processed event type: ' + str(drv.ev_type.get(c['e']))] += 1
+        if drv.ev_type.get(c['e']) == 'DELETED' and any(uu == c['u'] and q >= c['seq_begin'] and (c['seq_end'] is None or q < c['seq_end'])
+                                                         for uu, q in drv.arrive_log):
+            dec['arrival while a DELETED event is being processed'] += 1
     for k, n in drv.spawn_stats.items():
         dec['insert->spawn: ' + k] += n
     dec['quiescence markers'] += sum(1 for it in trace if it[0] == 'Q')
@@ -230,6 +243,8 @@ def run_case(cfgd: dict, actions: list[tuple], epilogue: bool = True) -> dict:
 ALPHABET2 = ['F0', 'F1', 'D0', 'D1', 'T', 'R0', 'R1', 'Q0', 'Q1', 'C']
 # with consistency_timeout > 0: processor calls may return a patched version (V), its echo may arrive (E)
 ALPHABET_V = ['F0', 'F1', 'V0', 'D0', 'D1', 'E0', 'T', 'R0', 'C']
+# typed events: DELETED (K) / ADDED (N) / MODIFIED (F) of the same key, arrivals while a call is in flight
+ALPHABET_K = ['N0', 'K0', 'F0', 'D0', 'F1', 'D1', 'T', 'C']
 
 
 def dfs(cfgd: dict, prefix: list[str], depth: int, alphabet: list[str]) -> list[dict]:
@@ -264,6 +279,8 @@ def random_actions(r: random.Random, nuids: int, n: int, versions: bool = False)
         if x < 0.30:
             if versions and r.random() < 0.2:
                 acts.append(('E', u, r.choice([0, 0, 1])))
+            elif r.random() < 0.4:
+                acts.append(('G', u, r.choice(['ADDED', 'MODIFIED', 'DELETED', 'DELETED', None]), r.choice([0, 0, 1])))
             else:
                 acts.append(('F', u, r.choice([0, 0, 0, 1, 2])))
         elif x < 0.50:
@@ -288,8 +305,8 @@ def random_actions(r: random.Random, nuids: int, n: int, versions: bool = False)
     return acts
 
 
-def cfgd_of(limit: int | None, indexed: bool, nuids: int, ctimeout: float = 0.0) -> dict:
-    return qd.Config(limit=limit, indexed=indexed, nuids=nuids, ctimeout=ctimeout).as_dict()
+def cfgd_of(limit: int | None, indexed: bool, nuids: int, ctimeout: float = 0.0, uidless: bool = False) -> dict:
+    return qd.Config(limit=limit, indexed=indexed, nuids=nuids, ctimeout=ctimeout, uidless=uidless).as_dict()
 
 
 def run(ctx: fw.Ctx) -> int:
@@ -302,7 +319,8 @@ def run(ctx: fw.Ctx) -> int:
     depth = ctx.scale(5, 6)
     nrandom = ctx.scale(1500, 30000)
     jobs: list[tuple] = []
-    jobs.append(('list', [(cfgd_of(c[0], c[1], 2, c[3] if len(c) > 3 else 0.0), expand_all(c[2])) for c in CORPUS]))
+    jobs.append(('list', [(cfgd_of(c[0], c[1], 2, c[3] if len(c) > 3 else 0.0, c[4] if len(c) > 4 else False), expand_all(c[2]))
+                          for c in CORPUS]))
     for limit, indexed in [(None, False), (1, False), (2, False), (1, True)] + ([(None, True), (2, True)] if ctx.thorough else []):
         cfgd = cfgd_of(limit, indexed, 2)
         for m1 in ALPHABET2[:2]:       # every non-empty applicable sequence starts with a feed
@@ -314,12 +332,18 @@ def run(ctx: fw.Ctx) -> int:
         for m1 in ALPHABET_V[:2]:
             for m2 in ALPHABET_V:
                 jobs.append(('dfs', cfgd, [m1, m2], depth, ALPHABET_V))
+    # typed events (ADDED / MODIFIED / DELETED), with and without metadata.uid
+    for limit, uidless in [(None, False), (1, True)] + ([(None, True), (2, False)] if ctx.thorough else []):
+        cfgd = cfgd_of(limit, False, 2, 0.0, uidless)
+        for m1 in ALPHABET_K[:3]:
+            for m2 in ALPHABET_K:
+                jobs.append(('dfs', cfgd, [m1, m2], depth, ALPHABET_K))
     r = ctx.rng
     rnd = []
     for i in range(nrandom):
         nu = r.choice([2, 3, 3])
         ct = r.choice([0.0, 3.0, 3.0, 1.0])
-        cfgd = cfgd_of(r.choice([None, 1, 2, 2]), r.random() < 0.25, nu, ct)
+        cfgd = cfgd_of(r.choice([None, 1, 2, 2]), r.random() < 0.25, nu, ct, r.random() < 0.2)
         rnd.append((cfgd, random_actions(r, nu, r.randrange(4, 15), versions=ct > 0)))
     for i in range(0, len(rnd), 250):
         jobs.append(('list', rnd[i:i + 250]))
@@ -334,7 +358,7 @@ def run(ctx: fw.Ctx) -> int:
     nbreaks = 0
     for res in results:
         data = {'cfg': res['cfg'], 'actions': res['actions']}
-        ctx.count('scenarios', 'limit=' + str(res['cfg']['limit']) + (',indexed' if res['cfg']['indexed'] else '') + (',versions' if res['cfg']['ctimeout'] else ''))
+        ctx.count('scenarios', 'limit=' + str(res['cfg']['limit']) + (',indexed' if res['cfg']['indexed'] else '') + (',versions' if res['cfg']['ctimeout'] else '') + (',uidless' if res['cfg'].get('uidless') else ''))
         for b in res['breaks']:
             nbreaks += 1
             if nbreaks <= 3:    # a few examples are enough; the total is in the histogram
